@@ -8,7 +8,7 @@
    and the property's oracle evaluated on the implementation's own behaviour for every case
 5. decide: VIOLATION (with a concrete replay when one is found), KNOWN-FINDING lines, evidence
 """
-import argparse, collections, fcntl, hashlib, json, multiprocessing, os, random, re, subprocess, sys, time
+import argparse, collections, fcntl, hashlib, json, multiprocessing, os, random, re, shutil, signal, subprocess, sys, tempfile, time
 
 HERE = os.path.dirname(os.path.abspath(__file__))
 sys.path.insert(0, HERE)
@@ -169,24 +169,104 @@ def _impl_worker(c):
 
 
 def run_impl_all(cases, procs=None):
+    """-> implementation records in case order.  Worker processes are forked by hand and write their records
+    to files: no pipes that a runaway implementation can fill, and the whole run can be cut short (SIGKILL) when
+    far more cases time out than ever do on a sound tree (see mass_timeouts)."""
     procs = procs or min(16, os.cpu_count() or 4)
     if len(cases) < 40:
         return [common.run_impl_case(c, timeout=c.get("timeout", 30.0)) for c in cases]
-    # a change that makes the implementation hang on ordinary inputs must not stall the check for hours:
-    # once far more cases time out than ever do on a sound tree, the rest is not run (see mass_timeouts)
-    out = []
+    os.makedirs("/tmp/dsv", exist_ok=True)
+    tmpdir = tempfile.mkdtemp(prefix="impl_", dir="/tmp/dsv")
     budget = max(20, len(cases) // 200)
-    nto = 0
-    with multiprocessing.Pool(procs, initializer=_impl_init, maxtasksperchild=200) as pool:
-        for r in pool.imap(_impl_worker, cases, chunksize=max(1, min(25, len(cases) // (procs * 8)))):
-            out.append(r)
-            if r.get("status") == "TIMEOUT":
-                nto += 1
-                if nto > budget:
-                    pool.terminate()
-                    break
-    while len(out) < len(cases):
-        out.append({"status": "TIMEOUT", "skipped": True})
+    tlog = os.path.join(tmpdir, "timeouts")
+    open(tlog, "w").close()
+    # contiguous blocks keep the order of cases inside a worker (histories, process noise)
+    per = (len(cases) + procs - 1) // procs
+    pids = []
+    pids_by_worker = []
+    stuck = set()
+    started = time.time()
+    hard_limit = 3 * max([c.get("timeout", 30.0) for c in cases] + [30.0]) + 60
+    for w in range(procs):
+        lo, hi = w * per, min(len(cases), (w + 1) * per)
+        if lo >= hi:
+            pids_by_worker.append(None)
+            continue
+        pid = os.fork()
+        if pid == 0:
+            code = 0
+            try:
+                _impl_init()
+                with open(os.path.join(tmpdir, "w%d.jsonl" % w), "w") as f:
+                    for idx in range(lo, hi):
+                        r = _impl_worker(cases[idx])
+                        if r.get("status") == "TIMEOUT":
+                            with open(tlog, "a") as t:
+                                t.write("t")
+                        f.write(json.dumps([idx, r]) + "\n")
+                        f.flush()
+            except BaseException:
+                code = 1
+            finally:
+                os._exit(code)
+        pids.append(pid)
+        pids_by_worker.append(pid)
+    alive = set(pids)
+    aborted = False
+    while alive:
+        for pid in list(alive):
+            try:
+                got, _ = os.waitpid(pid, os.WNOHANG)
+            except ChildProcessError:
+                got = pid
+            if got:
+                alive.discard(pid)
+        if alive:
+            if os.path.getsize(tlog) > budget:
+                aborted = True
+                for pid in alive:
+                    try:
+                        os.kill(pid, signal.SIGKILL)
+                    except ProcessLookupError:
+                        pass
+            # watchdog: a worker that has written nothing for far longer than any case may take is stuck in a
+            # case that cannot be interrupted (counts as a time-out of that case; the rest of its block is not run)
+            now = time.time()
+            for w, pid in enumerate(pids_by_worker):
+                if pid in alive:
+                    fpath = os.path.join(tmpdir, "w%d.jsonl" % w)
+                    last = os.path.getmtime(fpath) if os.path.exists(fpath) else started
+                    if now - max(last, started) > hard_limit:
+                        stuck.add(w)
+                        try:
+                            os.kill(pid, signal.SIGKILL)
+                        except ProcessLookupError:
+                            pass
+            time.sleep(0.3)
+    out = [None] * len(cases)
+    for w in range(procs):
+        fpath = os.path.join(tmpdir, "w%d.jsonl" % w)
+        if os.path.exists(fpath):
+            for ln in open(fpath):
+                try:
+                    idx, r = json.loads(ln)
+                    out[idx] = r
+                except Exception:
+                    pass
+    shutil.rmtree(tmpdir, ignore_errors=True)
+    for w in range(procs):
+        lo, hi = w * per, min(len(cases), (w + 1) * per)
+        first = True
+        for k in range(lo, hi):
+            if out[k] is None:
+                # the case a worker died on is a crash; what it never reached (or what was cut short) was not run
+                if first and w in stuck:
+                    out[k] = {"status": "TIMEOUT", "hard": True}
+                elif first and not aborted:
+                    out[k] = {"status": "CRASH", "err": "WorkerDied", "site": "harness-worker", "msg": "the worker process running this case died"}
+                else:
+                    out[k] = {"status": "TIMEOUT", "skipped": True}
+                first = False
     return out
 
 
